@@ -14,7 +14,9 @@
 (* Results: push/try_push 1 = stored, 0 = full (try only), -1 = user_abort, *)
 (* -2 = exception (only in executions with injected faults: the element     *)
 (* copy or the page allocation threw; the value is then NOT stored);        *)
-(* pop/try_pop: the value (>0), 0 = empty (try only), -1 = user_abort.      *)
+(* pop/try_pop: the value (>0), 0 = empty (try only), -1 = user_abort,      *)
+(* -2 = the assignment of the popped item threw (faults only; the item is   *)
+(* consumed).                                                               *)
 (***************************************************************************)
 EXTENDS Integers, Sequences, FiniteSets
 CONSTANT Threads
@@ -38,6 +40,8 @@ Lin(t) ==
           /\ q' = q /\ pend' = [pend EXCEPT ![t].lin = TRUE, ![t].out = -2]
        \/ /\ pend[t].op \in {"pop", "try_pop"} /\ q # <<>>
           /\ q' = Tail(q) /\ pend' = [pend EXCEPT ![t].lin = TRUE, ![t].out = Head(q)]
+       \/ /\ pend[t].op \in {"pop", "try_pop"} /\ q # <<>> /\ faults    \* injected exception in the assignment of the popped item: the item is consumed
+          /\ q' = Tail(q) /\ pend' = [pend EXCEPT ![t].lin = TRUE, ![t].out = -2]
        \/ /\ pend[t].op = "try_pop" /\ q = <<>>                    \* reports empty only if it was empty at some instant of the call
           /\ q' = q /\ pend' = [pend EXCEPT ![t].lin = TRUE, ![t].out = 0]
        \/ /\ pend[t].op = "abort"                                  \* abort(): every blocked (pending, not yet effective) push/pop may answer user_abort
